@@ -8,7 +8,7 @@ from corpus import defs as D
 from checks import prop_generic as G
 
 PROP = "C11"
-UNITS = [("range_map_small", 9), ("range_map_insert", 14), ("range_map_insert_ranges", 15), ("range_map_remove_ranges", 17)]
+UNITS = [("range_map_small", 9), ("range_map_insert", 14), ("range_map_insert_ranges", 15), ("range_map_remove_ranges", 17), ("regex_to_range_map", 8)]
 
 TRUSTED = [
     "Verus 0.2026.09.13 + Z3 (bundled), rustc front end",
@@ -16,8 +16,11 @@ TRUSTED = [
     "assumed specifications of std items: mem::take, cmp::max/min (through vstd cmp_spec), RangeInclusive::start/end, Vec::extend, "
     "derived Clone of Range<A> (start/end copied); vstd's own specifications of Vec, vec::IntoIter, slice::Iter",
     "RangeMap::map is not under contract (iterator-adapter chain with a pattern closure parameter; Verus rejects it)",
-    "callers outside range_map.rs (regex_to_nfa.rs, nfa.rs, nfa_to_dfa.rs) are not verified to establish the preconditions "
-    "(wf of inserted iterators, start <= end); see C02/C13 evidence and the regex_to_range_map unit when present",
+    "unit regex_to_range_map (real function of regex_to_nfa.rs): the RangeMap callees appear as external_body functions whose contracts RESTATE the ones proved in the "
+    "range_map_* units (kept equal by hand); the meaning of class expressions is given by defining equations stated as axioms guarded by acyclic(bindings); "
+    "termination is not proved (exec_allows_no_decreases_clause: a cyclic `let` recurses forever); get_builtin_regex and the table-to-Vec conversion are trusted (C13 decides the tables); "
+    "axiom: a Vec<Range<A>> holds at most usize::MAX - 2 elements (std capacity guarantee for non-zero-sized elements)",
+    "other callers of RangeMap (nfa.rs add_range_transition(s), nfa_to_dfa.rs) are not verified to establish the preconditions",
 ]
 
 
@@ -106,6 +109,8 @@ def main():
             "insert_ranges": "requires wf(old), wf(iter.remaining()), lawful iterator; ensures wf(final) && coverage == union; terminates",
             "remove_ranges": "requires wf(old), wf(other); ensures wf(final) && forall c. covers(final,c) <==> covers(old,c) && !covers(other,c); terminates",
             "new/default/len/is_empty/iter/into_iter/from_non_overlapping_sorted_ranges/Range::contains": "exact functional postconditions over the closed view rs()",
+            "regex_to_range_map": "requires acyclic(bindings) && is_class(bindings, re) (every panic! arm is proved unreachable); ensures wf(result) && forall c. covers(result, c) <==> denote(bindings, re, c) "
+                                  "where denote is: character = itself; bracket set = union of its characters and inclusive ranges; `_` = every code point up to U+10FFFF; `|` = union; `#` = difference; variable = its binding; built-in = its table",
         },
         "vacuity_guards": "expected minimum number of verified functions per unit; proof fn witness_wf (wf satisfiable with 2 pieces, rejects inverted/adjacent-overlapping pieces)",
         "native_replayer": replay_info,
